@@ -31,7 +31,7 @@ import (
 var (
 	verifDir   = envOr("VERIF_DIR", "/verif")
 	harnessDir = filepath.Join(verifDir, "harness")
-	buildDir   = filepath.Join(verifDir, ".build")
+	buildDir   = envOr("VERIF_BUILD_DIR", filepath.Join(verifDir, ".build"))
 )
 
 func envOr(k, d string) string {
@@ -80,8 +80,30 @@ func buildArgs(variant string) []string {
 	case "cover":
 		a = append(a, "-cover", "-coverpkg=github.com/go-ap/activitypub,verif/harness/cmd/vdrive")
 	}
+	if alt := altModfile(); alt != "" {
+		a = append(a, "-modfile="+alt)
+	}
 	a = append(a, "-o", filepath.Join(buildDir, "vdrive-"+variant), "./cmd/vdrive")
 	return a
+}
+
+// altModfile: for the seeded-change self-test only (tools/try_seeded.sh), VERIF_REPO points the replace directive at a
+// scratch worktree instead of /repo. Registered MANIFEST commands never set it.
+func altModfile() string {
+	repo := os.Getenv("VERIF_REPO")
+	if repo == "" || repo == "/repo" {
+		return ""
+	}
+	b, err := os.ReadFile(filepath.Join(harnessDir, "go.mod"))
+	if err != nil {
+		return ""
+	}
+	alt := filepath.Join(buildDir, "go.alt.mod")
+	_ = os.WriteFile(alt, []byte(strings.Replace(string(b), "=> /repo", "=> "+repo, 1)), 0o644)
+	if sum, err := os.ReadFile(filepath.Join(harnessDir, "go.sum")); err == nil {
+		_ = os.WriteFile(filepath.Join(buildDir, "go.alt.sum"), sum, 0o644)
+	}
+	return alt
 }
 
 func build(variant string) error {
@@ -625,7 +647,7 @@ func run(prop, tier string, seed int64) int {
 		fmt.Fprintln(os.Stderr, err)
 		return 2
 	}
-	outDir := filepath.Join(verifDir, ".run", fmt.Sprintf("%s-%s-%d", prop, tier, os.Getpid()))
+	outDir := filepath.Join(envOr("VERIF_OUT_DIR", verifDir), ".run", fmt.Sprintf("%s-%s-%d", prop, tier, os.Getpid()))
 	_ = os.RemoveAll(outDir)
 	_ = os.MkdirAll(outDir, 0o755)
 	defer func() {
@@ -748,7 +770,7 @@ func run(prop, tier string, seed int64) int {
 	sort.Strings(sigs)
 	violations := 0
 	var knownSeen []string
-	replayDir := filepath.Join(verifDir, "replay", prop)
+	replayDir := filepath.Join(envOr("VERIF_OUT_DIR", verifDir), "replay", prop)
 	for _, s := range sigs {
 		f := bySig[s]
 		if e, ok := knownBySig[s]; ok {
@@ -824,14 +846,14 @@ func run(prop, tier string, seed int64) int {
 		"property_id": prop, "tier": tier, "seed": seed, "level": "exploration",
 		"coverage": cov, "assumptions": m.Assumptions, "wall_s": time.Since(t0).Seconds(), "violations": violations,
 	}
-	_ = os.MkdirAll(filepath.Join(verifDir, "evidence"), 0o755)
+	_ = os.MkdirAll(filepath.Join(envOr("VERIF_OUT_DIR", verifDir), "evidence"), 0o755)
 	var ebuf bytes.Buffer
 	enc := json.NewEncoder(&ebuf)
 	enc.SetEscapeHTML(false)
 	enc.SetIndent("", " ")
 	_ = enc.Encode(ev)
 	eb := bytes.TrimRight(ebuf.Bytes(), "\n")
-	_ = os.WriteFile(filepath.Join(verifDir, "evidence", prop+".json"), append(eb, '\n'), 0o644)
+	_ = os.WriteFile(filepath.Join(envOr("VERIF_OUT_DIR", verifDir), "evidence", prop+".json"), append(eb, '\n'), 0o644)
 
 	fmt.Printf("%s %s seed=%d: cases=%d evaluations=%d distinct=%d nontrivial=%d findings=%d (known %d) violations=%d inconclusive=%d wall=%.1fs\n",
 		prop, tier, seed, total.Cases, total.Evals, len(fpset), len(ntset), len(sigs), len(knownSeen), violations, len(inconcl), time.Since(t0).Seconds())
